@@ -20,7 +20,7 @@ Anything outside this fragment raises TErr naming the construct: the caller prin
 TRANSLATE-ERROR and exits 2 (a broken tie).  Nothing is skipped silently: every function
 reachable from ROOTS is translated completely or not at all.
 """
-from rustlex import find_fn, find_impl, match_close, num_value, parse_match_arms, split_top, text
+from rustlex import char_value, find_fn, find_impl, match_close, num_value, parse_match_arms, split_top, text
 
 
 class TErr(Exception):
@@ -36,15 +36,43 @@ FIELDS = [
     ("origin_mode", "z_org", "bool"), ("new_line_mode", "z_nlm", "bool"),
     ("active_charset", "z_acs", "usize"),
     ("charsets[0]", "z_cs0", "Charset"), ("charsets[1]", "z_cs1", "Charset"),
+    ("insert_mode", "z_ins", "bool"), ("auto_wrap_mode", "z_awm", "bool"),
+    ("cursor.visible", "z_vis", "bool"), ("cursor_keys_mode", "z_ckm", "CursorKeysMode"),
 ]
 FIELD = {p: (z, ty) for p, z, ty in FIELDS}
-COQ_TY = {"usize": "Z", "isize": "Z", "u16": "Z", "bool": "bool", "Charset": "charset", "range": "(Z * Z)"}
+COQ_TY = {"usize": "Z", "isize": "Z", "u16": "Z", "bool": "bool", "Charset": "charset", "range": "(Z * Z)",
+          "char": "Z", "cell": "zcell", "erase": "zerase", "pair": "(Z * Z)", "opt_usize": "(option Z)",
+          "CursorKeysMode": "bool"}
+# Rust enums that may be matched on / passed around: name -> (Coq type, {variant: Coq constructor})
+ENUMS = {
+    "EdScope": ("ed_scope", {"Below": "EdBelow", "Above": "EdAbove", "All": "EdAll", "SavedLines": "EdSavedLines"}),
+    "ElScope": ("el_scope", {"ToRight": "ElToRight", "ToLeft": "ElToLeft", "All": "ElAll"}),
+    "CtcOp": ("ctc_op", {"Set": "CtcSet", "ClearCurrentColumn": "CtcClearCurrentColumn", "ClearAll": "CtcClearAll"}),
+    "TbcScope": ("tbc_scope", {"CurrentColumn": "TbcCurrentColumn", "All": "TbcAll"}),
+    "AnsiMode": ("ansi_mode", {"Insert": "Insert", "NewLine": "NewLine"}),
+    "DecMode": ("dec_mode", {k: k for k in ("CursorKeys", "Origin", "AutoWrap", "TextCursorEnable", "AltScreenBuffer",
+                                            "SaveCursor", "SaveCursorAltScreenBuffer")}),
+}
+for _e, (_ct, _) in ENUMS.items():
+    COQ_TY[_e] = _ct
+    COQ_TY["Vec<%s>" % _e] = "(list %s)" % _ct
+# enum constants that are plain values of another type
+CONSTS = {("CursorKeysMode", "Normal"): ("false", "CursorKeysMode"), ("CursorKeysMode", "Application"): ("true", "CursorKeysMode")}
+ERASE = {"NextChars": 1, "FromCursorToEndOfView": 0, "FromStartOfViewToCursor": 0, "WholeView": 0,
+         "FromCursorToEndOfLine": 0, "FromStartOfLineToCursor": 0, "WholeLine": 0}
 INT = ("usize", "isize", "u16")
 UNSIGNED = ("usize", "u16")
 
 # calls that leave the scalar world: (receiver place, method) -> (event ctor, argument kinds)
-#   'i' an integer argument, 'r' a range (two integers), 'pen' the literal `&self.pen`
+#   'i' an integer argument, 'r' a range (two integers), 'p' a position tuple (two integers),
+#   'pen' the literal `&self.pen`, 'cell' a cell expression, 'erase' an EraseMode expression
 EXTERN = {
+    ("buffer", "print"): ("EvBufPrint", ["p", "cell"]),
+    ("buffer", "insert"): ("EvBufInsert", ["p", "i", "cell"]),
+    ("buffer", "delete"): ("EvBufDelete", ["p", "i", "pen"]),
+    ("buffer", "erase"): ("EvBufErase", ["p", "erase", "pen"]),
+    ("buffer", "wrap"): ("EvBufWrap", ["i"]),
+    ("dirty_lines", "add"): ("EvDirtyAdd", ["i"]),
     ("tabs", "set"): ("EvTabSet", ["i"]),
     ("tabs", "unset"): ("EvTabUnset", ["i"]),
     ("tabs", "clear"): ("EvTabsClear", []),
@@ -52,16 +80,36 @@ EXTERN = {
     ("buffer", "scroll_down"): ("EvBufScrollDown", ["r", "i", "pen"]),
     ("dirty_lines", "extend"): ("EvDirtyExtend", ["r"]),
 }
-EVENTS = [("EvTabSet", 1), ("EvTabUnset", 1), ("EvTabsClear", 0), ("EvBufScrollUp", 3),
-          ("EvBufScrollDown", 3), ("EvDirtyExtend", 2)]
+EVENTS = [("EvTabSet", "(a : Z)"), ("EvTabUnset", "(a : Z)"), ("EvTabsClear", ""), ("EvBufScrollUp", "(a b c : Z)"),
+          ("EvBufScrollDown", "(a b c : Z)"), ("EvDirtyExtend", "(a b : Z)"),
+          ("EvBufPrint", "(c r : Z) (x : zcell)"), ("EvBufInsert", "(c r n : Z) (x : zcell)"),
+          ("EvBufDelete", "(c r n : Z)"), ("EvBufErase", "(c r : Z) (m : zerase)"), ("EvBufWrap", "(r : Z)"),
+          ("EvDirtyAdd", "(r : Z)")]
+# queries: calls into the non-scalar world that return a value (W-mode functions only)
+#   (receiver place, method) -> (interface field, argument kinds, result type)
+QUERIES = {
+    ("tabs", "after"): ("q_tabs_after", ["i", "i"], "opt_usize"),
+    ("tabs", "before"): ("q_tabs_before", ["i", "i"], "opt_usize"),
+}
 
 # the functions whose translation is delivered (callees are pulled in on demand)
+# the functions emitted in the original trace style `zt -> .. -> zt * bool` (events in [z_ev]); every other
+# function is emitted in W-mode: `zops W -> zt -> W -> .. -> option (zt * W * bool)`
 ROOTS = ["as_usize", "do_move_cursor_to_col", "move_cursor_to_col", "do_move_cursor_to_row",
          "actual_top_margin", "actual_bottom_margin", "move_cursor_to_row", "move_cursor_to_rel_col",
          "move_cursor_home", "cursor_down", "cursor_up", "bs", "cr", "so", "si", "gzd4", "g1d4",
          "cuu", "cud", "cuf", "cub", "cnl", "cpl", "cha", "cup", "vpa", "vpr", "decstbm",
          "set_tab", "clear_tab", "clear_all_tabs", "scroll_up_in_region", "scroll_down_in_region",
          "move_cursor_down_with_scroll", "lf", "nel", "ri", "il", "dl", "su", "sd", "hts"]
+OLD = set(ROOTS)
+# methods performed as ONE opaque step on the whole state (interface field [op_full]): their bodies are tied to
+# the source by Gen/Resets.v (save/restore_cursor, soft/hard_reset) or not by this translator (the others)
+OPAQUE = {"save_cursor": ("XSaveCursor", []), "restore_cursor": ("XRestoreCursor", []),
+          "soft_reset": ("XSoftReset", []), "hard_reset": ("XHardReset", []),
+          "switch_to_alternate_buffer": ("XSwitchAlt", []), "switch_to_primary_buffer": ("XSwitchPrimary", []),
+          "reflow": ("XReflow", []), "sgr": ("XSgr", ["Vec<SgrOp>"]), "xtwinops": ("XXtwinops", ["XtwinopsOp"])}
+ROOTS_W = ["sc", "rc", "ris", "decstr", "decset", "decrst", "print", "ich", "dch", "ech", "ed", "el", "decaln", "rep", "move_cursor_to_next_tab",
+           "move_cursor_to_prev_tab", "ht", "cht", "cbt", "ctc", "tbc", "sm", "rm"]
 
 # binary operators, lowest precedence first (`..` and `as` are handled separately)
 BINOPS = [("||",), ("&&",), ("==", "!=", "<", "<=", ">", ">="), ("+", "-"), ("*", "/", "%")]
@@ -71,11 +119,13 @@ BINOPS = [("||",), ("&&",), ("==", "!=", "<", "<=", ">", ">="), ("+", "-"), ("*"
 
 class Parser:
     """Recursive descent over rustlex tokens.  AST nodes are tuples:
-       expressions  ('num', n) ('bool', b) ('var', x) ('self',) ('field', e, name) ('index', e, e)
+       expressions  ('num', n) ('bool', b) ('char', n) ('var', x) ('self',) ('field', e, name) ('index', e, e)
+                    ('tuple', [e]) ('path', [seg], args|None)
                     ('neg', e) ('not', e) ('ref', e) ('bin', op, a, b) ('cast', e, ty) ('range', a, b)
                     ('mcall', recv, name, args) ('call', name, args) ('paren', e)
                     ('if', cond, block, block|None) ('match', e, [(pat, block)])
-       statements   ('let', x, e) ('assign', lhs, op, e) ('expr', e)
+                    pat = ('pbool', b) | ('pwild',) | ('ppath', [seg])
+       statements   ('let', x, e) ('assign', lhs, op, e) ('expr', e) ('for', x, e, block)
        block        (stmts, tail_expr|None)"""
 
     def __init__(self, toks, where):
@@ -117,7 +167,21 @@ class Parser:
                 self.eat(";")
                 stmts.append(("let", name, e))
                 continue
-            if self.peek()[0] == "id" and self.peek()[1] in ("return", "for", "while", "loop", "use", "break",
+            if self.at("use"):                 # `use Enum::*;` only (patterns are resolved by the scrutinee type)
+                self.eat()
+                en = self.eat(kind="id")
+                if en not in ENUMS or not (self.at("::") and self.at("*", 1) and self.at(";", 2)):
+                    self.err("unsupported `use` statement")
+                self.i += 3
+                continue
+            if self.at("for"):
+                self.eat()
+                var = self.eat(kind="id")
+                self.eat("in")
+                it = self.expr()
+                stmts.append(("for", var, it, self.block()))
+                continue
+            if self.peek()[0] == "id" and self.peek()[1] in ("return", "while", "loop", "break",
                                                              "continue", "unsafe", "fn", "const", "static"):
                 self.err("unsupported statement `%s`" % self.peek()[1])
             e = self.expr()
@@ -225,11 +289,20 @@ class Parser:
                 if t.endswith(suf):
                     self.err("unsupported: suffixed literal " + t)
             return ("num", num_value(t))
+        if k == "char":
+            self.eat()
+            return ("char", char_value(t))
         if k == "punct" and t == "(":
             self.eat()
             e = self.expr()
             if self.at(","):
-                self.err("unsupported: tuple expression")
+                es = [e]
+                while self.at(","):
+                    self.eat()
+                    if not self.at(")"):
+                        es.append(self.expr())
+                self.eat(")")
+                return ("tuple", es)
             self.eat(")")
             return ("paren", e)
         if k == "id":
@@ -260,9 +333,21 @@ class Parser:
                 arms = []
                 while not self.at("}"):
                     pk, pat = self.peek()
-                    if not (pk == "id" and pat in ("true", "false", "_")):
+                    if pk != "id":
                         self.err("unsupported match pattern")
                     self.eat()
+                    if pat in ("true", "false"):
+                        pat = ("pbool", pat == "true")
+                    elif pat == "_":
+                        pat = ("pwild",)
+                    else:
+                        segs = [pat]
+                        while self.at("::"):
+                            self.eat()
+                            segs.append(self.eat(kind="id"))
+                        pat = ("ppath", segs)
+                    if not self.at("=>"):
+                        self.err("unsupported match pattern (binders, guards and alternatives are not supported)")
                     self.eat("=>")
                     if self.at("{"):
                         body = self.block()
@@ -279,7 +364,11 @@ class Parser:
                 self.err("unexpected keyword `%s`" % t)
             self.eat()
             if self.at("::"):
-                self.err("unsupported: path expression %s::" % t)
+                segs = [t]
+                while self.at("::"):
+                    self.eat()
+                    segs.append(self.eat(kind="id"))
+                return ("path", segs, self.args() if self.at("(") else None)
             if self.at("!"):
                 self.err("unsupported: macro call %s!" % t)
             if self.at("("):
@@ -316,7 +405,11 @@ def parse_sig(toks, fs, bo, where):
         name = p.eat(kind="id")
         p.eat(":")
         ty = p.eat(kind="id")
-        if ty not in COQ_TY or ty == "range":
+        if ty == "Vec" and p.at("<"):
+            p.eat()
+            ty = "Vec<%s>" % p.eat(kind="id")
+            p.eat(">")
+        if ty not in COQ_TY or ty in ("range", "cell", "erase", "pair", "opt_usize"):
             p.err("unsupported parameter type " + ty)
         params.append((name, ty))
         if not p.at(")"):
@@ -349,6 +442,8 @@ def paren_c(c):
 class Fn:
     def __init__(self, name, selfk, params, ret, body):
         self.name, self.selfk, self.params, self.ret, self.body = name, selfk, params, ret, body
+        self.wmode = name not in OLD       # W-mode: threads the non-scalar world, may query it
+        self.pfx = "w_" if self.wmode else "g_"
 
 
 class Emitter:
@@ -358,6 +453,11 @@ class Emitter:
         self.fns = {}          # name -> Fn (translated)
         self.out = []          # (name, gallina definition) in dependency order
         self.busy = []
+        self.cur = None        # the function being emitted
+        self.pre = []          # hoisted queries of the statement being emitted: (pattern, term)
+        self.qn = 0
+        self.cdepth = 0        # > 0 inside conditionally evaluated sub-expressions
+        self.closers = []
 
     # -- locating and translating functions on demand
     def need(self, name, is_method):
@@ -384,9 +484,16 @@ class Emitter:
                 p.err("trailing tokens after the body")
             f = Fn(name, selfk, params, ret, body)
             self.busy.append(name)
-            self.out.append((name, self.emit_fn(f)))
+            saved = (self.cur, self.pre, self.qn, self.cdepth, self.closers)
+            self.cur, self.pre, self.qn, self.cdepth, self.closers = f, [], 0, 0, []
+            d = self.emit_fn(f)
+            self.cur, self.pre, self.qn, self.cdepth, self.closers = saved
+            self.out.append((name, d))
             self.busy.pop()
             self.fns[name] = f
+        if self.cur is not None and f.wmode and not self.cur.wmode:
+            raise TErr("%s: calls %s, which needs the non-scalar world (the caller is emitted in trace style)"
+                       % (self.cur.name, name))
         if is_method and f.selfk is None:
             raise TErr("%s: called as a method but has no self" % name)
         if not is_method and f.selfk is not None:
@@ -426,14 +533,33 @@ class Emitter:
             return str(e[1]), None, None
         if k == "bool":
             return ("true" if e[1] else "false"), None, "bool"
+        if k == "char":
+            return str(e[1]), None, "char"
+        if k == "tuple":
+            if len(e[1]) != 2:
+                raise TErr("%s: unsupported: tuple of %d components" % (w, len(e[1])))
+            ga, ca, ta = self.expr(e[1][0], env, w, "usize")
+            gb, cb, tb = self.expr(e[1][1], env, w, "usize")
+            if ta not in ("usize", None) or tb not in ("usize", None):
+                raise TErr("%s: unsupported: tuple of %s, %s" % (w, ta, tb))
+            return "(%s, %s)" % (ga, gb), conj(ca, cb), "pair"
+        if k == "path":
+            return self.path(e, env, w, want)
         if k == "paren":
             return self.expr(e[1], env, w, want)
         if k == "var":
             if e[1] not in env:
                 raise TErr("%s: unknown variable %s" % (w, e[1]))
             return "v_" + e[1], None, env[e[1]]
+        if k == "index" and e[2][0] != "num" and self.place(e[1], w) == "charsets":
+            gi, ci, ti = self.expr(e[2], env, w, "usize")
+            if ti != "usize":
+                raise TErr("%s: index into self.charsets of type %s" % (w, ti))
+            return ("(if (%s =? 0) then (z_cs0 s) else (z_cs1 s))" % gi, conj(ci, "(%s <? 2)" % gi), "Charset")
         if k in ("field", "index"):
             pl = self.place(e, w)
+            if pl == "buffer.cols" and self.cur.wmode:
+                return "(q_buf_cols O w)", None, "usize"
             if pl is None:
                 raise TErr("%s: unsupported: field access on a non-self value" % w)
             if pl not in FIELD:
@@ -496,12 +622,14 @@ class Emitter:
                 raise TErr("%s: unsupported: `match` on a value of type %s" % (w, ts))
             arms = {}
             for pat, body in e[2]:
-                for p in (("true", "false") if pat == "_" else (pat,)):
+                if pat[0] == "ppath":
+                    raise TErr("%s: unsupported pattern %s in a bool match" % (w, "::".join(pat[1])))
+                for p in ((True, False) if pat[0] == "pwild" else (pat[1],)):
                     arms.setdefault(p, body)
-            if set(arms) != {"true", "false"}:
+            if set(arms) != {True, False}:
                 raise TErr("%s: non-exhaustive bool match" % w)
-            g1, c1, t1 = self.value_block(arms["true"], env, w, want)
-            g2, c2, t2 = self.value_block(arms["false"], env, w, want)
+            g1, c1, t1 = self.value_block(arms[True], env, w, want)
+            g2, c2, t2 = self.value_block(arms[False], env, w, want)
             ty = self.unify(t1, t2, w, "match arms")
             c = None
             if c1 is not None or c2 is not None:
@@ -513,11 +641,49 @@ class Emitter:
                 f = self.need(name, True)
                 if f.ret is None:
                     raise TErr("%s: unit method self.%s used as a value" % (w, name))
-                if f.selfk == "mut":
-                    raise TErr("%s: unsupported: value of a `&mut self` method self.%s" % (w, name))
+                if f.selfk == "mut" or f.wmode:
+                    raise TErr("%s: unsupported: value of a `&mut self` / W-mode method self.%s" % (w, name))
                 ga, ca = self.call_args(f, args, env, w)
                 app = "(g_%s s%s)" % (name, "".join(" " + a for a in ga))
                 return "(fst %s)" % app, conj(ca, "snd %s" % app), f.ret
+            pl = self.place(recv, w) if recv[0] in ("field", "index") and not (
+                recv[0] == "index" and recv[2][0] != "num") else None
+            if pl is not None and (pl, name) in QUERIES:
+                field, kinds, rty = QUERIES[(pl, name)]
+                if len(kinds) != len(args):
+                    raise TErr("%s: self.%s.%s with %d arguments" % (w, pl, name, len(args)))
+                gs, cs = ["w"], []
+                for a in args:
+                    g, c, ty = self.expr(a, env, w, "usize")
+                    if ty not in ("usize", None):
+                        raise TErr("%s: self.%s.%s: argument of type %s" % (w, pl, name, ty))
+                    gs.append(self.atom(g))
+                    cs.append(c)
+                return self.query(field, gs, w), conj(*cs), rty
+            if name == "char" and not args and recv[0] == "index" and self.place(recv[1], w) == "buffer":
+                g, c, ty = self.expr(recv[2], env, w)
+                if ty != "pair":
+                    raise TErr("%s: self.buffer[..] indexed by a value of type %s" % (w, ty))
+                return self.query("q_buf_char", ["w", "(fst %s)" % g, "(snd %s)" % g], w), c, "char"
+            if name == "unwrap_or" and len(args) == 1:
+                ga, ca, ta = self.expr(recv, env, w)
+                if ta != "opt_usize":
+                    raise TErr("%s: unsupported: .unwrap_or at type %s" % (w, ta))
+                gb, cb, tb = self.expr(args[0], env, w, "usize")      # evaluated eagerly, as in Rust
+                if tb not in ("usize", None):
+                    raise TErr("%s: .unwrap_or default of type %s" % (w, tb))
+                return "(match %s with Some x => x | None => %s end)" % (ga, gb), conj(ca, cb), "usize"
+            if name == "translate" and len(args) == 1:
+                ga, ca, ta = self.expr(recv, env, w)
+                gb, cb, tb = self.expr(args[0], env, w, "char")
+                if ta != "Charset" or tb != "char":
+                    raise TErr("%s: unsupported: .translate on %s with %s" % (w, ta, tb))
+                return self.query("q_translate", [self.atom(ga), self.atom(gb)], w), conj(ca, cb), "char"
+            if name == "into" and not args and want == "cell":
+                g, c, ty = self.expr(recv, env, w, "char")
+                if ty != "char":
+                    raise TErr("%s: unsupported: .into() from %s to a cell" % (w, ty))
+                return "(ZCellChar %s)" % self.atom(g), c, "cell"
             if name in ("min", "max"):
                 if len(args) != 1:
                     raise TErr("%s: .%s with %d arguments" % (w, name, len(args)))
@@ -560,7 +726,9 @@ class Emitter:
         op = e[1]
         if op in ("&&", "||"):
             ga, ca, ta = self.expr(e[2], env, w)
+            self.cdepth += 1
             gb, cb, tb = self.expr(e[3], env, w)
+            self.cdepth -= 1
             if ta != "bool" or tb != "bool":
                 raise TErr("%s: `%s` on non-bool operands" % (w, op))
             if cb is not None:     # short circuit: the right operand is charged only when evaluated
@@ -604,7 +772,52 @@ class Emitter:
         stmts, tail = blk
         if stmts or tail is None:
             raise TErr("%s: unsupported: statements inside a value-producing block" % w)
-        return self.expr(tail, env, w, want)
+        self.cdepth += 1
+        r = self.expr(tail, env, w, want)
+        self.cdepth -= 1
+        return r
+
+    def query(self, field, gs, w):
+        """hoist a call into the non-scalar world that returns a value"""
+        if not self.cur.wmode:
+            raise TErr("%s: unsupported in a trace-style function: query %s" % (w, field))
+        if self.cdepth:
+            raise TErr("%s: unsupported: query %s inside a conditionally evaluated expression" % (w, field))
+        self.qn += 1
+        q = "q%d" % self.qn
+        self.pre.append((q, "%s O %s" % (field, " ".join(gs))))
+        return q
+
+    def atom(self, g):
+        return g if g.startswith("(") or " " not in g else "(%s)" % g
+
+    def path(self, e, env, w, want):
+        segs, args = e[1], e[2]
+        if segs == ["Cell", "new"] and args is not None and len(args) == 2:
+            if args[1] != ("field", ("self",), "pen"):
+                raise TErr("%s: Cell::new: expected `self.pen` as the pen" % w)
+            g, c, ty = self.expr(args[0], env, w, "char")
+            if ty != "char":
+                raise TErr("%s: Cell::new on a value of type %s" % (w, ty))
+            return "(ZCellNew %s)" % self.atom(g), c, "cell"
+        if segs == ["Cell", "blank"] and args == [("field", ("self",), "pen")]:
+            return "ZCellBlank", None, "cell"
+        if len(segs) == 2 and segs[0] == "EraseMode" and segs[1] in ERASE:
+            n = ERASE[segs[1]]
+            if (len(args) if args is not None else 0) != n:
+                raise TErr("%s: EraseMode::%s with the wrong number of arguments" % (w, segs[1]))
+            if n == 0:
+                return "Z" + segs[1], None, "erase"
+            g, c, ty = self.expr(args[0], env, w, "usize")
+            if ty not in ("usize", None):
+                raise TErr("%s: EraseMode::%s on a value of type %s" % (w, segs[1], ty))
+            return "(Z%s %s)" % (segs[1], self.atom(g)), c, "erase"
+        if len(segs) == 2 and args is None and tuple(segs) in CONSTS:
+            g, ty = CONSTS[tuple(segs)]
+            return g, None, ty
+        if len(segs) == 2 and args is None and segs[0] in ENUMS and segs[1] in ENUMS[segs[0]][1]:
+            return ENUMS[segs[0]][1][segs[1]], None, segs[0]
+        raise TErr("%s: unsupported path expression %s%s" % (w, "::".join(segs), "(..)" if args is not None else ""))
 
     # -- statements.  Emits `let .. in` lines over the shadowed names `s`, `ok`, `v_x`.
     def assigned(self, blk, acc):
@@ -612,38 +825,93 @@ class Emitter:
         stmts, tail = blk
         declared = set()
         for st in list(stmts) + ([("expr", tail)] if tail is not None else []):
+            inner = []
             if st[0] == "let":
                 declared.add(st[1])
             elif st[0] == "assign" and st[1][0] == "var":
-                if st[1][1] not in declared and st[1][1] not in acc:
-                    acc.append(st[1][1])
-            elif st[0] == "expr" and st[1][0] in ("if", "match"):
-                inner = []
-                if st[1][0] == "if":
-                    self.assigned(st[1][2], inner)
-                    if st[1][3] is not None:
-                        self.assigned(st[1][3], inner)
-                else:
-                    for _, b in st[1][2]:
-                        self.assigned(b, inner)
-                for x in inner:
-                    if x not in declared and x not in acc:
-                        acc.append(x)
+                inner.append(st[1][1])
+            elif st[0] == "for":
+                self.assigned(st[3], inner)
+                inner = [x for x in inner if x != st[1]]
+            elif st[0] == "expr" and st[1][0] == "if":
+                self.assigned(st[1][2], inner)
+                if st[1][3] is not None:
+                    self.assigned(st[1][3], inner)
+            elif st[0] == "expr" and st[1][0] == "match":
+                for _, b in st[1][2]:
+                    self.assigned(b, inner)
+            for x in inner:
+                if x not in declared and x not in acc:
+                    acc.append(x)
         return acc
 
+    # -- emission helpers.  Lines are `let .. in` / `zb (..) (fun .. =>` over the shadowed names s, w, ok, v_x.
     def charge(self, c, lines, ind):
         if c is not None:
             lines.append("%slet ok := ok && %s in" % (ind, c))
 
-    def stmt_block(self, blk, env, f, lines, ind, nested=True):
-        """unit-context block; env is copied (block scoping), assignments to outer locals persist by
-        shadowing because the caller re-binds them from the tuple this block ends with"""
+    def bind(self, lines, ind, term, pat):
+        lines.append("%szb (%s) (fun %s =>" % (ind, term, pat))
+        self.closers[-1] += 1
+
+    def flush_pre(self, lines, ind):
+        for q, term in self.pre:
+            self.bind(lines, ind, term, q)
+        self.pre = []
+
+    def tup(self, f, muts):
+        return ", ".join((["s", "w", "ok"] if f.wmode else ["s", "ok"]) + ["v_" + m for m in muts])
+
+    def join_open(self, f, tup):
+        return "zb (" if f.wmode else "let '(%s) := " % tup
+
+    def join_close(self, f, tup):
+        if f.wmode:
+            self.closers[-1] += 1
+            return ") (fun '(%s) =>" % tup
+        return " in"
+
+    def block_lines(self, blk, env, f, ind, tup, nested=True):
+        """a unit-context block as lines ending with the state tuple; env is copied (block scoping),
+        assignments to outer locals persist because the caller re-binds them from the tuple"""
         outer, env = env, dict(env)
         stmts, tail = blk
+        lines = []
+        self.closers.append(0)
+        reassigned = self.assigned(blk, []) if nested else []
         for st in list(stmts) + ([("expr", tail)] if tail is not None else []):
-            if nested and st[0] == "let" and st[1] in outer:
-                raise TErr("%s: unsupported: `let %s` shadows an outer variable inside a nested block" % (f.name, st[1]))
+            if nested and st[0] == "let" and st[1] in outer and st[1] in reassigned:
+                raise TErr("%s: unsupported: `let %s` shadows an outer variable that the same block assigns"
+                           % (f.name, st[1]))
             self.stmt(st, env, f, lines, ind)
+        lines.append("%s%s%s" % (ind, ("Some (%s)" if f.wmode else "(%s)") % tup, ")" * self.closers.pop()))
+        return lines
+
+    def extern_args(self, what, kinds, args, env, w):
+        if len(kinds) != len(args):
+            raise TErr("%s: %s with %d arguments" % (w, what, len(args)))
+        gs, cs = [], []
+        for a, kind in zip(args, kinds):
+            if kind == "pen":
+                if a != ("ref", ("field", ("self",), "pen")):
+                    raise TErr("%s: %s: expected `&self.pen`" % (w, what))
+                continue
+            want = {"i": "usize", "r": None, "p": None, "cell": "cell", "erase": "erase"}[kind]
+            g, c, ty = self.expr(a, env, w, want)
+            if kind == "i":
+                if ty not in ("usize", None):
+                    raise TErr("%s: %s: argument of type %s" % (w, what, ty))
+                gs.append(self.atom(g))
+            elif kind in ("r", "p"):
+                if ty != {"r": "range", "p": "pair"}[kind]:
+                    raise TErr("%s: %s: expected a %s" % (w, what, {"r": "range", "p": "position tuple"}[kind]))
+                gs += ["(fst %s)" % g, "(snd %s)" % g]
+            else:
+                if ty != kind:
+                    raise TErr("%s: %s: expected a value of type %s, found %s" % (w, what, kind, ty))
+                gs.append(self.atom(g))
+            cs.append(c)
+        return gs, conj(*cs)
 
     def stmt(self, st, env, f, lines, ind):
         w = f.name
@@ -651,6 +919,7 @@ class Emitter:
             g, c, ty = self.expr(st[2], env, w)
             if ty is None:
                 raise TErr("%s: cannot determine the type of `let %s`" % (w, st[1]))
+            self.flush_pre(lines, ind)
             self.charge(c, lines, ind)
             lines.append("%slet v_%s := %s in" % (ind, st[1], g))
             env[st[1]] = ty
@@ -665,6 +934,7 @@ class Emitter:
                 g, c, ty = self.expr(rhs, env, w, env[lhs[1]])
                 if ty is not None and ty != env[lhs[1]]:
                     raise TErr("%s: assignment to %s: type %s, expected %s" % (w, lhs[1], ty, env[lhs[1]]))
+                self.flush_pre(lines, ind)
                 self.charge(c, lines, ind)
                 lines.append("%slet v_%s := %s in" % (ind, lhs[1], g))
                 return
@@ -681,30 +951,87 @@ class Emitter:
                 raise TErr("%s: write to self.%s: type %s, expected %s" % (w, pl, ty, fty))
             if ty is None and fty not in INT:
                 raise TErr("%s: write to self.%s: integer literal at type %s" % (w, pl, fty))
+            self.flush_pre(lines, ind)
             self.charge(c, lines, ind)
             lines.append("%slet s := set_%s %s s in" % (ind, z, g))
+            return
+        if st[0] == "for":
+            if not f.wmode:
+                raise TErr("%s: unsupported in a trace-style function: `for` loop" % w)
+            var, it, body = st[1], st[2], st[3]
+            g, c, ty = self.expr(it, env, w)
+            if ty == "range":
+                it_g, vty = "(zrange (fst %s) (snd %s))" % (g, g), "usize"
+            elif ty is not None and ty.startswith("Vec<"):
+                it_g, vty = g, ty[4:-1]
+            else:
+                raise TErr("%s: unsupported: `for` over a value of type %s" % (w, ty))
+            self.flush_pre(lines, ind)
+            self.charge(c, lines, ind)
+            if var in env:
+                raise TErr("%s: unsupported: loop variable %s shadows an outer variable" % (w, var))
+            muts = [m for m in self.assigned(body, []) if m in env]
+            tup = self.tup(f, muts)
+            env2 = dict(env)
+            env2[var] = vty
+            lines.append("%szb (zfor %s (fun v_%s '(%s) =>" % (ind, it_g, var, tup))
+            lines += self.block_lines(body, env2, f, ind + "    ", tup)
+            lines[-1] += ") (%s)) (fun '(%s) =>" % (tup, tup)
+            self.closers[-1] += 1
             return
         e = st[1]
         if e[0] == "if":
             gc, cc, tc = self.expr(e[1], env, w)
             if tc != "bool":
                 raise TErr("%s: `if` condition of type %s" % (w, tc))
+            self.flush_pre(lines, ind)
             self.charge(cc, lines, ind)
             muts = self.assigned(e[2], [])
             if e[3] is not None:
                 self.assigned(e[3], muts)
-            muts = [m for m in muts if m in env]
-            tup = ", ".join(["s", "ok"] + ["v_" + m for m in muts])
-            lines.append("%slet '(%s) := if %s then" % (ind, tup, gc))
-            self.stmt_block(e[2], env, f, lines, ind + "    ")
-            lines.append("%s    (%s)" % (ind, tup))
+            tup = self.tup(f, [m for m in muts if m in env])
+            lines.append("%s%sif %s then" % (ind, self.join_open(f, tup), gc))
+            lines += self.block_lines(e[2], env, f, ind + "    ", tup)
             lines.append("%s  else" % ind)
-            if e[3] is not None:
-                self.stmt_block(e[3], env, f, lines, ind + "    ")
-            lines.append("%s    (%s) in" % (ind, tup))
+            lines += self.block_lines(e[3] if e[3] is not None else ([], None), env, f, ind + "    ", tup)
+            lines[-1] += self.join_close(f, tup)
             return
         if e[0] == "match":
-            raise TErr("%s: unsupported: `match` as a statement" % w)
+            gs, cs, ts = self.expr(e[1], env, w)
+            self.flush_pre(lines, ind)
+            self.charge(cs, lines, ind)
+            muts = []
+            for _, b in e[2]:
+                self.assigned(b, muts)
+            tup = self.tup(f, [m for m in muts if m in env])
+            lines.append("%s%smatch %s with" % (ind, self.join_open(f, tup), gs))
+            for pat, b in e[2]:
+                if pat[0] == "pwild":
+                    gp = "_"
+                elif pat[0] == "pbool":
+                    if ts != "bool":
+                        raise TErr("%s: bool pattern in a match on %s" % (w, ts))
+                    gp = "true" if pat[1] else "false"
+                else:
+                    segs = pat[1]
+                    if ts not in ENUMS or len(segs) > 2 or (len(segs) == 2 and segs[0] != ts) \
+                            or segs[-1] not in ENUMS[ts][1]:
+                        raise TErr("%s: unsupported pattern %s in a match on %s" % (w, "::".join(segs), ts))
+                    gp = ENUMS[ts][1][segs[-1]]
+                lines.append("%s  | %s =>" % (ind, gp))
+                lines += self.block_lines(b, env, f, ind + "      ", tup)
+            lines.append("%s  end%s" % (ind, self.join_close(f, tup)))
+            return
+        if e[0] == "mcall" and e[1][0] == "self" and e[2] in OPAQUE:
+            ctor, ptys = OPAQUE[e[2]]
+            if not f.wmode:
+                raise TErr("%s: unsupported in a trace-style function: call of self.%s" % (w, e[2]))
+            if ptys or e[3]:
+                raise TErr("%s: unsupported: call of self.%s with arguments" % (w, e[2]))
+            find_fn(self.toks, e[2], self.lo, self.hi)          # must still exist
+            self.flush_pre(lines, ind)
+            self.bind(lines, ind, "op_full O %s s w" % ctor, "'(s, w)")
+            return
         if e[0] == "mcall" and e[1][0] == "self":
             g = self.need(e[2], True)
             if g.ret is not None:
@@ -712,36 +1039,31 @@ class Emitter:
             if g.selfk == "mut" and f.selfk != "mut":
                 raise TErr("%s: `&mut self` method called without `&mut self`" % w)
             ga, ca = self.call_args(g, e[3], env, w)
+            self.flush_pre(lines, ind)
             self.charge(ca, lines, ind)
-            lines.append("%slet '(s, okc) := g_%s s%s in" % (ind, e[2], "".join(" " + a for a in ga)))
+            app = "%s%s%s" % (g.pfx + e[2], " O s w" if g.wmode else " s", "".join(" " + a for a in ga))
+            if not f.wmode:
+                lines.append("%slet '(s, okc) := %s in" % (ind, app))
+            elif g.wmode:
+                self.bind(lines, ind, app, "'(s, w, okc)")
+            else:
+                self.bind(lines, ind, "zlift O (%s) w" % app, "'(s, w, okc)")
             lines.append("%slet ok := ok && okc in" % ind)
             return
         if e[0] == "mcall":
             pl = self.place(e[1], w)
             if pl is not None and (pl, e[2]) in EXTERN:
                 ctor, kinds = EXTERN[(pl, e[2])]
-                if len(kinds) != len(e[3]):
-                    raise TErr("%s: self.%s.%s with %d arguments" % (w, pl, e[2], len(e[3])))
                 if f.selfk != "mut":
                     raise TErr("%s: self.%s.%s without `&mut self`" % (w, pl, e[2]))
-                gs, cs = [], []
-                for a, kind in zip(e[3], kinds):
-                    if kind == "pen":
-                        if a != ("ref", ("field", ("self",), "pen")):
-                            raise TErr("%s: self.%s.%s: expected `&self.pen`" % (w, pl, e[2]))
-                        continue
-                    g, c, ty = self.expr(a, env, w, "usize")
-                    if kind == "i":
-                        if ty not in ("usize", None):
-                            raise TErr("%s: self.%s.%s: argument of type %s" % (w, pl, e[2], ty))
-                        gs.append(g if g.startswith("(") or " " not in g else "(%s)" % g)
-                    else:
-                        if ty != "range":
-                            raise TErr("%s: self.%s.%s: expected a range" % (w, pl, e[2]))
-                        gs += ["(fst %s)" % g, "(snd %s)" % g]
-                    cs.append(c)
-                self.charge(conj(*cs), lines, ind)
-                lines.append("%slet s := z_emit (%s) s in" % (ind, " ".join([ctor] + gs)))
+                gs, c = self.extern_args("self.%s.%s" % (pl, e[2]), kinds, e[3], env, w)
+                self.flush_pre(lines, ind)
+                self.charge(c, lines, ind)
+                ev = "(%s)" % " ".join([ctor] + gs)
+                if f.wmode:
+                    self.bind(lines, ind, "op_ev O w %s" % ev, "w")
+                else:
+                    lines.append("%slet s := z_emit %s s in" % (ind, ev))
                 return
             raise TErr("%s: unsupported call %s.%s(..)" % (w, "self." + pl if pl is not None else "<expr>", e[2]))
         if e[0] == "call":
@@ -753,20 +1075,27 @@ class Emitter:
         for n, ty in f.params:
             env[n] = ty
         ps = "".join(" (v_%s : %s)" % (n, COQ_TY[ty]) for n, ty in f.params)
+        stmts, tail = f.body
+        if f.wmode:
+            if f.selfk != "mut" or f.ret is not None:
+                raise TErr("%s: unsupported: W-mode function that is not a unit `&mut self` method" % f.name)
+            lines = ["  let ok := true in"] + self.block_lines(f.body, env, f, "  ", "s, w, ok", nested=False)
+            return "Definition w_%s {W : Type} (O : zops W) (s : zt) (w : W)%s : option (zt * W * bool) :=\n%s.\n" % (
+                f.name, ps, "\n".join(lines))
         sarg = " (s : zt)" if f.selfk else ""
         lines = ["  let ok := true in"]
-        stmts, tail = f.body
         if f.ret is None:
             if f.selfk != "mut":
                 raise TErr("%s: unsupported: unit function without `&mut self`" % f.name)
-            self.stmt_block(f.body, env, f, lines, "  ", nested=False)
-            lines.append("  (s, ok).")
+            lines += self.block_lines(f.body, env, f, "  ", "s, ok", nested=False)
+            lines[-1] += "."
             rty = "zt * bool"
         else:
             if f.selfk == "mut":
                 raise TErr("%s: unsupported: `&mut self` method returning a value" % f.name)
             if tail is None:
                 raise TErr("%s: no tail expression" % f.name)
+            self.closers.append(0)
             for st in stmts:
                 self.stmt(st, env, f, lines, "  ")
             g, c, ty = self.expr(tail, env, f.name, f.ret)
@@ -774,6 +1103,7 @@ class Emitter:
                 raise TErr("%s: returns %s, declared %s" % (f.name, ty, f.ret))
             self.charge(c, lines, "  ")
             lines.append("  (%s, ok)." % g)
+            self.closers.pop()
             rty = "%s * bool" % COQ_TY[f.ret]
         return "Definition g_%s%s%s : %s :=\n%s\n" % (f.name, sarg, ps, rty, "\n".join(lines))
 
@@ -807,13 +1137,14 @@ def check_structs(term, cur):
     tf, cf = struct_fields(term, "Terminal"), struct_fields(cur, "Cursor")
     want = {"cols": "usize", "rows": "usize", "pending_wrap": "bool", "top_margin": "usize", "bottom_margin": "usize",
             "origin_mode": "bool", "new_line_mode": "bool", "active_charset": "usize", "cursor": "Cursor",
+            "insert_mode": "bool", "auto_wrap_mode": "bool", "cursor_keys_mode": "CursorKeysMode",
             "charsets": "[ Charset ; 2 ]"}
     for k, v in want.items():
         if tf.get(k) != v:
             raise TErr("struct Terminal: field %s has type %s (expected %s)" % (k, tf.get(k), v))
-    for k in ("col", "row"):
-        if cf.get(k) != "usize":
-            raise TErr("struct Cursor: field %s has type %s (expected usize)" % (k, cf.get(k)))
+    for k, v in (("col", "usize"), ("row", "usize"), ("visible", "bool")):
+        if cf.get(k) != v:
+            raise TErr("struct Cursor: field %s has type %s (expected %s)" % (k, cf.get(k), v))
 
 
 def exec_map(term, em):
@@ -852,6 +1183,17 @@ Import ListNotations.
 Local Open Scope Z_scope.
 Local Open Scope bool_scope.
 
+(** cells and erase modes as the callers build them; the pen of [ZCellNew] / [ZCellBlank] is `self.pen` *)
+Inductive zcell := ZCellNew (ch : Z) | ZCellBlank | ZCellChar (ch : Z).
+Inductive zerase :=
+| ZNextChars (n : Z) | ZFromCursorToEndOfView | ZFromStartOfViewToCursor | ZWholeView
+| ZFromCursorToEndOfLine | ZFromStartOfLineToCursor | ZWholeLine.
+
+(** methods performed as one opaque step on the whole state *)
+Inductive zfull :=
+| XSaveCursor | XRestoreCursor | XSoftReset | XHardReset | XSwitchAlt | XSwitchPrimary | XReflow
+| XSgr (ops : list sgr_op) | XXtwinops (op : xtwinops_op).
+
 (** calls that leave the scalar world, with their evaluated arguments *)
 Inductive zev :=
 %(events)s.
@@ -865,33 +1207,90 @@ Record zt := mkZt {
 %(setters)s
 Definition z_emit (e : zev) (s : zt) : zt :=
   mkZt %(allf)s (e :: z_ev s).
+Definition z_clear (s : zt) : zt :=
+  mkZt %(allf)s [].
+
+(** * W-mode: the non-scalar world [W] behind an interface.
+    [op_ev] performs a recorded call, the [q_*] fields answer the calls that return a value;
+    [None] stands for a panic inside the non-scalar world. *)
+Record zops (W : Type) := mkZops {
+  op_ev : W -> zev -> option W;
+  op_full : zfull -> zt -> W -> option (zt * W);
+  q_tabs_after : W -> Z -> Z -> option (option Z);
+  q_tabs_before : W -> Z -> Z -> option (option Z);
+  q_buf_char : W -> Z -> Z -> option Z;
+  q_buf_cols : W -> Z;
+  q_translate : charset -> Z -> option Z
+}.
+Arguments op_ev {W}. Arguments op_full {W}. Arguments q_tabs_after {W}. Arguments q_tabs_before {W}. Arguments q_buf_char {W}.
+Arguments q_buf_cols {W}. Arguments q_translate {W}.
+
+Definition zb {A B : Type} (m : option A) (k : A -> option B) : option B :=
+  match m with Some a => k a | None => None end.
+Fixpoint zfor {A B : Type} (l : list B) (f : B -> A -> option A) (a : A) : option A :=
+  match l with [] => Some a | x :: r => zb (f x a) (zfor r f) end.
+Definition zrange (a b : Z) : list Z := map (fun i => a + Z.of_nat i) (seq 0 (Z.to_nat (b - a))).
+Fixpoint zrun_evs {W : Type} (O : zops W) (l : list zev) (w : W) : option W :=
+  match l with [] => Some w | e :: r => zb (op_ev O w e) (zrun_evs O r) end.
+(** run a trace-style function inside W-mode: perform its recorded calls, oldest first *)
+Definition zlift {W : Type} (O : zops W) (r : zt * bool) (w : W) : option (zt * W * bool) :=
+  zb (zrun_evs O (rev (z_ev (fst r))) w) (fun w' => Some (z_clear (fst r), w', snd r)).
 
 """
 
 
-def gen_termfns(term, cur, hdr):
+def check_cell(cell):
+    """the three ways a caller builds a cell, and the accessor used by `rep`"""
+    lo, hi = find_impl(cell, ["Cell"])
+    for fn, want in (("new", "Cell ( ch , pen )"), ("blank", "Cell ( ' ' , pen )"), ("char", "self . 0")):
+        _, bo, bc = find_fn(cell, fn, lo, hi)
+        if text(cell[bo + 1:bc]) != want:
+            raise TErr("Cell::%s: unexpected body %s" % (fn, text(cell[bo + 1:bc])))
+    lo, hi = find_impl(cell, ["From", "<", "char", ">", "for", "Cell"])
+    _, bo, bc = find_fn(cell, "from", lo, hi)
+    if text(cell[bo + 1:bc]) != "Self :: new ( value , Pen :: default ( ) )":
+        raise TErr("From<char> for Cell: unexpected body")
+
+
+EXEC_CONV = {"u16": "(Z.of_N %s)", "char": "(Z.of_N %s)", "Charset": "%s"}
+
+
+def gen_termfns(term, cur, hdr, cell=None):
     check_structs(term, cur)
+    if cell is not None:
+        check_cell(cell)
     em = Emitter(term)
     for r in ROOTS:
         em.need(r, r != "as_usize")
+    n_old = len(em.out)
+    for r in ROOTS_W:
+        em.need(r, True)
     zf = [(z, COQ_TY[ty]) for _, z, ty in FIELDS]
     setters = ""
     for z, ty in zf:
         setters += "Definition set_%s (v : %s) (s : zt) : zt :=\n  mkZt %s (z_ev s).\n" % (
             z, ty, " ".join("v" if z2 == z else "(%s s)" % z2 for z2, _ in zf))
     v = hdr + PRELUDE % {
-        "events": "\n".join("| %s%s" % (c, " (%s : Z)" % " ".join("abc"[:n]) if n else "") for c, n in EVENTS),
+        "events": "\n".join("| %s%s" % (c, " " + b if b else "") for c, b in EVENTS),
         "fields": ";\n".join("  %s : %s" % (z, ty) for z, ty in zf),
         "setters": setters,
         "allf": " ".join("(%s s)" % z for z, _ in zf),
     }
-    v += "\n".join(d for _, d in em.out)
+    v += "(** * trace-style functions *)\n\n" + "\n".join(d for _, d in em.out[:n_old])
+    v += "\n(** * W-mode functions *)\n\n" + "\n".join(d for _, d in em.out[n_old:])
     # the Terminal::execute arms that forward to a translated function
     arms = exec_map(term, em)
-    v += "\n(** [Terminal::execute]: the arms that forward to the functions above *)\n"
-    v += "Definition g_execute (s : zt) (f : func) : option (zt * bool) :=\n  match f with\n"
-    n_arm = 0
+    old_arms, w_arms = [], []
     for ctor, binders, meth, args in arms:
+        pat = " ".join([ctor] + ["a_" + b for b in binders])
+        if meth in OPAQUE:
+            xc, ptys = OPAQUE[meth]
+            find_fn(term, meth, em.lo, em.hi)
+            if len(ptys) != len(args) or args != binders:
+                raise TErr("Terminal::execute: arm %s does not match the opaque method %s" % (ctor, meth))
+            x = "(%s)" % " ".join([xc] + ["a_" + a for a in args]) if args else xc
+            w_arms.append("  | %s => Some (zb (op_full O %s s w) (fun '(s, w) => Some (s, w, true)))\n" % (pat, x))
+            continue
         if meth not in em.fns:
             continue
         f = em.fns[meth]
@@ -899,12 +1298,21 @@ def gen_termfns(term, cur, hdr):
             raise TErr("Terminal::execute: arm %s does not match the signature of %s" % (ctor, meth))
         conv = []
         for a, (pn, pt) in zip(args, f.params):
-            conv.append({"u16": "(Z.of_N %s)", "Charset": "%s"}.get(pt, None))
-            if conv[-1] is None:
+            c = EXEC_CONV.get(pt, "%s" if pt in ENUMS or pt.startswith("Vec<") else None)
+            if c is None:
                 raise TErr("Terminal::execute: arm %s: parameter type %s" % (ctor, pt))
-            conv[-1] = conv[-1] % ("a_" + a)
-        v += "  | %s => Some (g_%s s%s)\n" % (" ".join([ctor] + ["a_" + b for b in binders]), meth,
-                                             "".join(" " + c for c in conv))
-        n_arm += 1
-    v += "  | _ => None\n  end.\n"
-    return v, [n for n, _ in em.out], n_arm
+            conv.append(c % ("a_" + a))
+        cargs = "".join(" " + c for c in conv)
+        if not f.wmode:
+            old_arms.append("  | %s => Some (g_%s s%s)\n" % (pat, meth, cargs))
+            w_arms.append("  | %s => Some (zlift O (g_%s s%s) w)\n" % (pat, meth, cargs))
+        else:
+            w_arms.append("  | %s => Some (w_%s O s w%s)\n" % (pat, meth, cargs))
+    v += "\n(** [Terminal::execute]: the arms that forward to the trace-style functions *)\n"
+    v += "Definition g_execute (s : zt) (f : func) : option (zt * bool) :=\n  match f with\n"
+    v += "".join(old_arms) + "  | _ => None\n  end.\n"
+    v += "\n(** [Terminal::execute] in W-mode: every arm that forwards to a translated function *)\n"
+    v += ("Definition w_execute {W : Type} (O : zops W) (s : zt) (w : W) (f : func) "
+          ": option (option (zt * W * bool)) :=\n  match f with\n")
+    v += "".join(w_arms) + ("  | _ => None\n" if len(w_arms) < len(arms) else "") + "  end.\n"
+    return v, [n for n, _ in em.out], len(w_arms)
